@@ -68,7 +68,17 @@ fn build_postfix_expression(
             // get `(` on stack
             Operation::RPar => {
                 while stack.last() != Some(&Operation::LPar) {
-                    postfix_expression.push(stack.pop().unwrap());
+                    // a `)` without a matching `(` means that the expression is malformed
+                    match stack.pop() {
+                        Some(operator) => postfix_expression.push(operator),
+                        None => {
+                            return Err(ParsingError::invalid_const_value(
+                                op,
+                                expression,
+                                &format!("constant expression {} is incorrect", op),
+                            ))
+                        }
+                    }
                 }
                 // pop the `(` from stack
                 stack.pop();
@@ -119,8 +129,17 @@ fn evaluate_postfix_expression(
             Operation::Value(value) => stack.push(*value),
             // if the operation is an operator
             _ => {
-                let right = stack.pop().expect("stack is empty");
-                let left = stack.pop().expect("stack is empty");
+                // an operator without two operands means that the expression is malformed
+                let (right, left) = match (stack.pop(), stack.pop()) {
+                    (Some(right), Some(left)) => (right, left),
+                    _ => {
+                        return Err(ParsingError::invalid_const_value(
+                            op,
+                            expression,
+                            &format!("constant expression {} is incorrect", op),
+                        ))
+                    }
+                };
                 stack.push(compute_statement(op, left, right, operation)?);
             }
         }
@@ -199,11 +218,13 @@ impl<'a> OperationIterator<'a> {
             Some(value) => {
                 parsed_value.push(value);
                 let mut next_char = char_iter.next();
-                self.expression = &self.expression[1..];
+                // advance by the encoded length of the character: the expression may contain
+                // (invalid) non-ASCII characters
+                self.expression = &self.expression[value.len_utf8()..];
                 while next_char.is_some() && !OPERATORS.contains(&next_char.unwrap()) {
                     parsed_value.push(next_char.unwrap());
+                    self.expression = &self.expression[next_char.unwrap().len_utf8()..];
                     next_char = char_iter.next();
-                    self.expression = &self.expression[1..];
                 }
                 Ok(Some(parse_operand(
                     self.op,
@@ -283,7 +304,12 @@ fn compute_statement(
             }
             Ok(left / right)
         }
-        _ => unreachable!(),
+        // a parenthesis among the operators means that the expression is malformed
+        _ => Err(ParsingError::invalid_const_value(
+            op,
+            &format!("{}", op),
+            &format!("constant expression {} is incorrect", op),
+        )),
     }
 }
 
